@@ -417,3 +417,6 @@ def run(ctx):
     # set_params, refit, save / load, equality) -- specs/msm/TrimMapping.tla, MSMLife.tla
     from props import x_trimmap
     x_trimmap.run_part(ctx)
+    # growth: bootstrap resampling, implied timescales per lag, synthetic ensembles / trajectories (Resample.tla)
+    from props import x_resample
+    x_resample.run_part(ctx)
